@@ -122,6 +122,16 @@ def units(rng, tier):
         for _ in range(rng.randint(4, 40)):
             sim.step()
         us.append(U(sim.ops, "random-disciplined"))
+    # ---- wide arrays (30..70 bins: the sizes at which an implementation might switch to a vectorised path): fill, sort, copy, combine
+    for _ in range(25 if tier == "quick" else 300):
+        sim = Sim(rng)
+        nb = rng.choice([30, 31, 32, 33, 34, 40, 48, 64, 65, 70])
+        sim.new(rng.random() < 0.7, nb)
+        for _ in range(rng.randint(nb // 2, 2 * nb)):
+            sim.step(kinds=[1, 1, 1, 1, 1, 1, 3, 7])          # mostly add items, sometimes sort / combine
+        for _ in range(rng.randint(2, 8)):
+            sim.step(kinds=[1, 2, 3, 3, 4, 5, 7])
+        us.append(U(sim.ops, "wide-arrays"))
     # ---- undisciplined: stale arrays reused (validates the aliasing model only)
     for _ in range(150 if tier == "quick" else 1500):
         sim = Sim(rng)
